@@ -34,4 +34,88 @@ theorem step_completes_exactly (t : TaskS) (now dt r : Int) (hs : t.state = .run
   · simp [h]; omega
   · simp [h]; omega
 
+/-! ### Exact runtime under contiguous stepping
+
+The simulator steps every RUNNING task at every advance of the clock (the tasks are
+stepped through the workers they are placed on), so the `now` of one `step` call is
+the `now + dt` of the previous one. Under that discipline a task that starts at `s`
+with remaining time `r > 0` reports completion exactly in the first step that reaches
+`s + r`, records `s + r` as its completion time, and never before. -/
+
+/-- Step a task through consecutive clock advances `dts` starting at `now`; stops at the
+first step that reports completion. Returns the task, whether it finished, and the
+clock value before the step that finished it (or after all steps). -/
+def runSteps (t : TaskS) (now : Int) : List Int → TaskS × Bool × Int
+  | [] => (t, false, now)
+  | d :: ds =>
+    let r := t.doStep now d
+    if r.2 then (r.1, true, now) else runSteps r.1 (now + d) ds
+
+theorem sum_nonneg (l : List Int) (h : ∀ x ∈ l, 0 ≤ x) : 0 ≤ l.sum := by
+  induction l with
+  | nil => simp
+  | cons a l ih =>
+    have := h a (List.mem_cons_self ..)
+    have := ih (fun x hx => h x (List.mem_cons_of_mem _ hx))
+    simp only [List.sum_cons]; omega
+
+theorem contiguous_steps_exact (dts : List Int) :
+    ∀ (t : TaskS) (now r : Int), t.state = .running → t.start ≤ now → t.lastStep = now →
+      t.remaining = some r → 0 < r → (∀ d ∈ dts, 0 ≤ d) →
+      ((runSteps t now dts).2.1 = true →
+          (runSteps t now dts).1.lastStep = now + r ∧ (runSteps t now dts).1.remaining = some 0 ∧
+          (runSteps t now dts).1.state = .running ∧
+          (runSteps t now dts).2.2 ≤ now + r ∧ now + r ≤ now + dts.sum) ∧
+      ((runSteps t now dts).2.1 = false →
+          dts.sum < r ∧ (runSteps t now dts).1.lastStep = now + dts.sum ∧
+          (runSteps t now dts).1.remaining = some (r - dts.sum)) := by
+  induction dts with
+  | nil =>
+    intro t now r hs hst hl hr hpos _
+    simp [runSteps, hl, hr, hpos]
+  | cons d ds ih =>
+    intro t now r hs hst hl hr hpos hd
+    have hd0 : 0 ≤ d := hd d (List.mem_cons_self ..)
+    have hds : ∀ x ∈ ds, 0 ≤ x := fun x hx => hd x (List.mem_cons_of_mem _ hx)
+    have h1 : ¬ (t.start > now + d) := by omega
+    have hr0 : r ≠ 0 := by omega
+    by_cases hfin : r - (now + d - now) ≤ 0
+    · -- this step completes the task
+      have hstep : t.doStep now d = ({ t with lastStep := now + r, remaining := some 0 }, true) := by
+        simp [TaskS.doStep, hs, hr, hl, h1, hr0, hfin]
+      simp only [runSteps, hstep, if_true, List.sum_cons]
+      have hsum : 0 ≤ ds.sum := sum_nonneg ds hds
+      refine ⟨fun _ => ⟨trivial, trivial, hs, by omega, by omega⟩, fun h => by simp at h⟩
+    · -- the task keeps running
+      have hstep : t.doStep now d = ({ t with lastStep := now + d, remaining := some (r - (now + d - now)) }, false) := by
+        simp [TaskS.doStep, hs, hr, hl, h1, hr0, hfin]
+      have ih' := ih { t with lastStep := now + d, remaining := some (r - (now + d - now)) } (now + d) (r - (now + d - now))
+        hs (by simp; omega) rfl rfl (by omega) hds
+      simp only [runSteps, hstep, Bool.false_eq_true, if_false, List.sum_cons]
+      constructor
+      · intro hf
+        have := ih'.1 hf
+        refine ⟨by rw [this.1]; omega, this.2.1, this.2.2.1, by have := this.2.2.2.1; omega, by have := this.2.2.2.2; omega⟩
+      · intro hf
+        have := ih'.2 hf
+        refine ⟨by omega, by rw [this.2.1]; omega, by rw [this.2.2]; congr 1; omega⟩
+
+/-- **A task that starts at `s` with runtime `r > 0` and is stepped at every clock advance
+completes at exactly `s + r`**: `finish()` after the completing step records `s + r` and
+the state COMPLETED; no earlier step reports completion. -/
+theorem completes_at_start_plus_runtime (t : TaskS) (r : Int) (dts : List Int)
+    (hs : t.state = .running) (hl : t.lastStep = t.start) (hr : t.remaining = some r) (hpos : 0 < r)
+    (hd : ∀ d ∈ dts, 0 ≤ d) (hfin : (runSteps t t.start dts).2.1 = true) :
+    ((runSteps t t.start dts).1.doFinish none).1.completion = t.start + r ∧
+    ((runSteps t t.start dts).1.doFinish none).1.state = .completed ∧
+    ((runSteps t t.start dts).1.doFinish none).2 = none := by
+  have h := (contiguous_steps_exact dts t t.start r hs (Int.le_refl _) hl hr hpos hd).1 hfin
+  simp [TaskS.doFinish, h.1, h.2.1, h.2.2.1]
+
+/-- Non-vacuity: runtime 5 from start 2, steps 2+2+3: completes in the third step at 7. -/
+example :
+    let t : TaskS := { name := "a", conditional := false, terminal := false, prob := 1000, strategies := [],
+                       profile := 0, deadline := 100, state := .running, start := 2, lastStep := 2, remaining := some 5 }
+    (runSteps t 2 [2, 2, 3]).2.1 = true ∧ (runSteps t 2 [2, 2, 3]).1.lastStep = 7 ∧ (runSteps t 2 [2, 2]).2.1 = false := by decide
+
 end ErdosVerif.C03
